@@ -455,7 +455,59 @@ func minInt(a, b int) int {
 
 // caseRun: Run on a program that a Step-driven twin shows to execute a HALT
 // opcode; Run must return within the twin-derived access budget.
+// caseParallel: several CPUs, each with its own memory, Stepped from their own
+// goroutines over byte soup dense with unsupported encodings.  Anything the
+// CPUs share behind the scenes (a package-level table, a scratch buffer, a
+// warn-once map) is hit from all of them at once; a Go runtime "fatal error"
+// (concurrent map access) ends the worker process and is reported by the parent.
+func (st *c12State) caseParallel(i int64) {
+	r := mon.NewRng(mon.Hash(st.seed, uint64(i), 0xC12D))
+	const ncpu = 4
+	var wg sync.WaitGroup
+	pans := make([]interface{}, ncpu)
+	for g := 0; g < ncpu; g++ {
+		mem := make(z80.DumbMemory, 65536)
+		// all unsupported DD/FD/ED/DDCB/FDCB openings in an order of its own per CPU
+		rr := mon.NewRng(r.U64())
+		for a := 0; a+4 <= len(mem); a += 4 {
+			pf := []uint8{0xdd, 0xfd, 0xed}[rr.Intn(3)]
+			if rr.Intn(3) == 0 {
+				mem[a], mem[a+1], mem[a+2], mem[a+3] = pf, 0xcb, rr.U8(), rr.U8()
+				if pf == 0xed {
+					mem[a+1] = rr.U8()
+				}
+			} else {
+				mem[a], mem[a+1], mem[a+2], mem[a+3] = pf, rr.U8(), 0x00, 0x00
+			}
+		}
+		cpu := &z80.CPU{Memory: mem}
+		cpu.SP = 0x8000
+		wg.Add(1)
+		go func(g int) {
+			defer wg.Done()
+			defer func() { pans[g] = recover() }()
+			for k := 0; k < 3000; k++ {
+				cpu.Step()
+				cpu.HALT = false
+			}
+		}(g)
+	}
+	wg.Wait()
+	st.res.Steps += ncpu * 3000
+	for g, p := range pans {
+		if p != nil {
+			st.res.Panics++
+			st.viol("C12/parallel/panic", map[string]interface{}{"what": fmt.Sprintf("panic: %v", p), "case": i, "kind": "parallel", "cpu": g})
+		}
+	}
+	st.class("parallel:4-cpus-over-unsupported-encodings")
+}
+
 func (st *c12State) caseRun(i int64) {
+	if i%16 == 5 {
+		st.caseParallel(i)
+		return
+	}
 	r := mon.NewRng(mon.Hash(st.seed, uint64(i), 0xC12C))
 	o := GenOpts{Base: 0x0100, MinBlocks: 1, MaxBlocks: 12, IM: r.Intn(3), Invalid: true, NoEI: r.Intn(3) == 0}
 	p := GenProgram(r, o)
@@ -557,12 +609,41 @@ func (st *c12State) caseRun(i int64) {
 		mr.Place(p.Base+3, 0x00, 0x00)
 	}
 	mr.Budget = 2*mt.Count + 64
+	// the context Run gets: background, live and cancellable, already cancelled, or
+	// cancelled by the device while the final HALT opcode is being fetched.  Run must
+	// RETURN in every case (with nil or with that context's error).
+	ctx, cancel := context.Background(), context.CancelFunc(func() {})
+	ctxKind := r.Intn(5)
+	switch ctxKind {
+	case 1:
+		ctx, cancel = context.WithCancel(ctx)
+	case 2:
+		ctx, cancel = context.WithCancel(ctx)
+		cancel()
+	case 3:
+		ctx, cancel = context.WithCancel(ctx)
+		inner := mr.Hook
+		mr.Hook = func(mm *mon.Mem, a mon.Access) {
+			if inner != nil {
+				inner(mm, a)
+			}
+			if a.Kind == 'R' && a.Val == 0x76 && a.Addr == run.PC {
+				cancel()
+			}
+		}
+	case 4:
+		var c2 context.CancelFunc
+		ctx, c2 = context.WithDeadline(ctx, time.Unix(0, 0)) // a deadline long past
+		cancel = c2
+	}
 	var rerr error
 	var pan interface{}
 	func() {
 		defer func() { pan = recover() }()
-		rerr = run.Run(context.Background())
+		rerr = run.Run(ctx)
 	}()
+	ctxErr := ctx.Err()
+	cancel()
 	st.res.Runs++
 	w := func(what string) map[string]interface{} {
 		return map[string]interface{}{"what": what, "code": HexBytes(p.Code), "halt_addr": h16(p.HaltAddr), "case": i, "kind": "run",
@@ -578,6 +659,8 @@ func (st *c12State) caseRun(i int64) {
 			st.res.Panics++
 			st.viol("C12/run/panic", w(fmt.Sprintf("panic: %v", pan)))
 		}
+	case rerr != nil && ctxErr != nil && rerr == ctxErr:
+		st.class("run:returned-the-cancelled-context's-error")
 	case halted && rerr != nil:
 		st.viol("C12/run/error-instead-of-halt", w(fmt.Sprintf("Run returned %v although the program halted", rerr)))
 	default:
@@ -596,6 +679,7 @@ func (st *c12State) caseRun(i int64) {
 		if weirdIM {
 			st.class("run:IM-out-of-range")
 		}
+		st.class([]string{"run:ctx-background", "run:ctx-live", "run:ctx-already-cancelled", "run:ctx-cancelled-during-the-HALT-fetch", "run:ctx-deadline-long-past"}[ctxKind])
 	}
 }
 
@@ -800,7 +884,7 @@ func runC12(c *Ctx) {
 	c.R.Set("worker_processes", nshards)
 	c.R.Set("exhaustive", false)
 	c.R.Set("exhaustive_over", "all 65536 two-byte openings (each with several random tails/states)")
-	c.R.Set("rule", "crash-isolated worker processes, every case a pure function of (seed, index): (a) all 65536 two-byte openings x random tails and states (PC at FFFC..FFFF in 1/4) as single Steps with the log monitor: no panic, <= 64 bus accesses, an 'invalid code' Step only consumes the bytes it fetched; (b) arbitrary byte programs (prefix storms, single-prefix fills, random) for 8..48 Steps on {64 KiB array, DumbMemory of length 0,1,2,255,256,4096,65535,65536 with the program cut off at its end, MapMemory} x {nil IO, DumbIO of length 0,1,128,256} x arbitrary States (IM in {-1,3,MaxInt,MinInt,256,2^32}) x Interrupt values of any Type with nil/empty/1..8 data bytes injected at a random Step (in half of those cases three times on the same CPU with IFF1 forced on, so that several requests are really accepted), at PC=FFFF, and from inside memory callbacks; (c) Run on generated programs (interrupts never enabled, requests pending from the start or raised by callbacks, IM out of range, breakpoints): whenever a Step-driven twin executes a HALT opcode, Run must return within twice the twin's bus accesses. Logical watchdogs only; a child that dies is re-run in a mode that records the index before each case. Each case index is a distinct input; all are counted")
+	c.R.Set("rule", "crash-isolated worker processes, every case a pure function of (seed, index): (a) all 65536 two-byte openings x random tails and states (PC at FFFC..FFFF in 1/4) as single Steps with the log monitor: no panic, <= 64 bus accesses, an 'invalid code' Step only consumes the bytes it fetched; (b) arbitrary byte programs (prefix storms, single-prefix fills, random) for 8..48 Steps on {64 KiB array, DumbMemory of length 0,1,2,255,256,4096,65535,65536 with the program cut off at its end, MapMemory} x {nil IO, DumbIO of length 0,1,128,256} x arbitrary States (IM in {-1,3,MaxInt,MinInt,256,2^32}) x Interrupt values of any Type with nil/empty/1..8 data bytes injected at a random Step (in half of those cases three times on the same CPU with IFF1 forced on, so that several requests are really accepted), at PC=FFFF, and from inside memory callbacks; (c) Run on generated programs (interrupts never enabled, requests pending from the start or raised by callbacks, IM out of range, breakpoints): whenever a Step-driven twin executes a HALT opcode, Run must return within twice the twin's bus accesses - under a background, a live, an already cancelled, a long-expired and a cancelled-during-the-HALT-fetch context alike (nil or that context's error); every 16th run case Steps 4 CPUs from 4 goroutines over all kinds of unsupported encodings at once. Logical watchdogs only; a child that dies is re-run in a mode that records the index before each case. Each case index is a distinct input; all are counted")
 	c.R.Assume("a nil map as MapMemory is the caller's error and is not exercised")
 	if total.Cases == 0 {
 		c.R.Inconclusive("no cases executed")
